@@ -382,6 +382,36 @@ func (l *lyingRemote) Ranges(ctx context.Context, ranges []ldiff.Range, resBuf [
 	return out, nil
 }
 
+// hostileHeadSync: an honest head-sync server whose answers are corrupted in flight.
+type hostileHeadSync struct {
+	w     *world
+	srv   ldiff.Diff
+	calls int
+}
+
+func (h *hostileHeadSync) HeadSync(ctx context.Context, in *spacesyncproto.HeadSyncRequest) (*spacesyncproto.HeadSyncResponse, error) {
+	h.calls++
+	if h.calls > 5000 {
+		return nil, errors.New("harness: the client keeps asking (more than 5000 requests for one diff)")
+	}
+	resp, err := headsync.HandleRangeRequest(ctx, h.srv, in)
+	if err != nil {
+		return nil, err
+	}
+	b, err := resp.MarshalVT()
+	if err != nil {
+		return nil, err
+	}
+	if h.w.s.Flip("corrupt-answer", 0.6) {
+		b, _ = mutateWire(h.w.s, b, b)
+	}
+	out := &spacesyncproto.HeadSyncResponse{}
+	if err := out.UnmarshalVT(b); err != nil {
+		return nil, err
+	}
+	return out, nil
+}
+
 func (w *world) stepDiff() {
 	t := w.diffTarget()
 	s := w.s
@@ -405,6 +435,28 @@ func (w *world) stepDiff() {
 		}
 		w.guard("headsync.HandleRangeRequest", what, len(b), func() error {
 			_, err := headsync.HandleRangeRequest(ctxb, t.d, out)
+			return err
+		})
+		return
+	}
+	if s.Flip("diff-through-wire-adapter", 0.5) {
+		// the client side of head sync: answers of an honest server (a second index), corrupted on the wire
+		srv := ldiff.New(8, 8)
+		for i, e := range t.d.Elements() {
+			if i%3 != 0 {
+				srv.Set(e)
+			}
+		}
+		srv.Set(ldiff.Element{Id: "only-on-the-server", Head: "h"})
+		hc := &hostileHeadSync{w: w, srv: srv}
+		rd := headsync.NewRemoteDiff(w.space.Id, hc)
+		w.guard("headsync.RemoteDiff", "server answers corrupted on the wire", 64, func() error {
+			ctx, cancel := context.WithTimeout(ctxb, time.Minute)
+			defer cancel()
+			if _, err := rd.DiffTypeCheck(ctx, t.d); err != nil {
+				return err
+			}
+			_, _, _, err := t.d.Diff(ctx, rd)
 			return err
 		})
 		return
